@@ -10,6 +10,8 @@
 //	probe           the probe template output `{{ toYaml .Values }}` in the revision's manifest ==
 //	                ApplyDefaults(stored config, defaults in force), where the defaults in force are the
 //	                new chart's, except under --reuse-values (those of the deployed revision stay)
+//	flag combos     steps that set several of the three flags are judged by the documented precedence
+//	                (--reset-values wins; else --reuse-values; else --reset-then-reuse-values)
 //	rollback        config and manifest of the new revision == the target revision's, unchanged
 //	history-stable  no earlier revision's stored config changes (aliasing between revisions)
 //
@@ -48,7 +50,7 @@ func init() {
 	core.Register(&core.Prop{
 		ID:    "C13",
 		Level: "exploration",
-		Rule: "seeded chains of 3-8 steps (install, upgrades with each of the four flag modes, rollbacks to random earlier revisions, upgrades made to fail by a one-shot 500 so that deployed != last) on memory and Secret storage, over a 4-version chart family whose defaults add/remove/retype keys; per step a random value tree (empty, nulls, type changes). " +
+		Rule: "seeded chains of 3-8 steps (install, upgrades with each of the four flag modes and with every combination of the three flags (judged by the documented precedence reset > reuse > reset-then-reuse), rollbacks to random earlier revisions, upgrades made to fail by a one-shot 500 so that deployed != last) on memory and Secret storage, over a 4-version chart family whose defaults add/remove/retype keys; per step a random value tree (empty, nulls, type changes). " +
 			"evaluations counts operations. distinct_nontrivial counts distinct chain shapes (sequence of step kinds/modes with outcome and whether values were empty) among chains that contain at least two different flag modes and a rollback.",
 		Assumptions: []string{
 			"the reference rule (expectedConfig, 30 lines, on top of ref.MergeKeep/ApplyDefaults) states the property's sentences",
@@ -131,7 +133,7 @@ func (f family) files(v int) gen.Files {
 
 type step struct {
 	Kind  string         // install | upgrade | rollback
-	Mode  string         // upgrade: none | reset | reuse | rtr
+	Mode  string         // upgrade: none | reset | reuse | rtr, or a combination "reset+reuse", "reuse+rtr", "reset+reuse+rtr" ...
 	Chart int            // chart version
 	Vals  map[string]any // new values
 	ToRev int            // rollback target
@@ -167,7 +169,7 @@ func genChain(rng *rand.Rand) []step {
 		if revs >= 2 && rng.Intn(100) < 22 {
 			steps = append(steps, step{Kind: "rollback", ToRev: 1 + rng.Intn(revs)})
 		} else {
-			steps = append(steps, step{Kind: "upgrade", Mode: gen.Pick(rng, []string{"none", "none", "reset", "reuse", "reuse", "rtr", "rtr"}), Chart: rng.Intn(4), Vals: genVals(rng), Fail: rng.Intn(100) < 15})
+			steps = append(steps, step{Kind: "upgrade", Mode: gen.Pick(rng, []string{"none", "none", "reset", "reuse", "reuse", "rtr", "rtr", "reset+reuse", "reset+rtr", "reuse+rtr", "reset+reuse+rtr"}), Chart: rng.Intn(4), Vals: genVals(rng), Fail: rng.Intn(100) < 15})
 		}
 		revs++
 	}
@@ -176,10 +178,24 @@ func genChain(rng *rand.Rand) []step {
 
 // ---------------------------------------------------------------- the rule (reference)
 
+// effMode resolves a combination of flags by the documented precedence (flag help of `helm upgrade`:
+// --reuse-values "is ignored if --reset-values is specified"; --reset-then-reuse-values "is ignored if
+// --reset-values or --reuse-values is specified"): reset-values, then reuse-values, then reset-then-reuse.
+func effMode(mode string) string {
+	for _, m := range []string{"reset", "reuse", "rtr"} {
+		for _, f := range strings.Split(mode, "+") {
+			if f == m {
+				return m
+			}
+		}
+	}
+	return "none"
+}
+
 // expectedConfig is the property's sentence. dep is the stored config of the currently deployed
 // revision. An explicit null in newVals under reuse/rtr stays a null here (ref.Diff accepts absent).
 func expectedConfig(mode string, dep, newVals map[string]any) map[string]any {
-	switch mode {
+	switch effMode(mode) {
 	case "reset":
 		return ref.CanonMap(newVals)
 	case "reuse", "rtr":
@@ -249,13 +265,15 @@ func parseProbe(manifest string) (string, map[string]any, error) {
 
 func opOf(s step) env.Op {
 	op := env.Op{Kind: s.Kind, Chart: s.Chart, Vals: s.Vals, ToRev: s.ToRev}
-	switch s.Mode {
-	case "reset":
-		op.ResetValues = true
-	case "reuse":
-		op.ReuseValues = true
-	case "rtr":
-		op.ResetThenReuse = true
+	for _, f := range strings.Split(s.Mode, "+") {
+		switch f {
+		case "reset":
+			op.ResetValues = true
+		case "reuse":
+			op.ReuseValues = true
+		case "rtr":
+			op.ResetThenReuse = true
+		}
 	}
 	return op
 }
@@ -385,6 +403,10 @@ func runChain(res *core.Result, driver string, idx int, fam family, chain []step
 		if st.Kind == "upgrade" {
 			kindMode += "[" + st.Mode + "]"
 			modes[st.Mode] = true
+			if strings.Contains(st.Mode, "+") {
+				res.Stat("upgrades_with_combined_flags", 1)
+				res.Key("combined|%s|%s", driver, st.Mode)
+			}
 			if failed {
 				hasFailed = true
 			}
@@ -416,10 +438,10 @@ func runChain(res *core.Result, driver string, idx int, fam family, chain []step
 			depCfg := parseConfig(dep.Config)
 			expCfg = expectedConfig(st.Mode, depCfg, st.Vals)
 			m = revModel{defaults: fam.Defaults[st.Chart]}
-			if st.Mode == "reuse" {
+			if effMode(st.Mode) == "reuse" {
 				m = revModel{defaults: model[dep.Revision].defaults, taint: model[dep.Revision].taint}
 			}
-			if st.Mode == "reuse" || st.Mode == "rtr" {
+			if em := effMode(st.Mode); em == "reuse" || em == "rtr" {
 				var np [][]string
 				nullPaths(ref.CanonMap(st.Vals), nil, &np)
 				m.taint = append(append([][]string{}, m.taint...), np...)
@@ -441,7 +463,7 @@ func runChain(res *core.Result, driver string, idx int, fam family, chain []step
 		if st.Kind != "rollback" {
 			var mk [][]string
 			maskedNow(got, ref.CanonMap(m.defaults), nil, &mk)
-			if st.Mode == "reuse" {
+			if effMode(st.Mode) == "reuse" {
 				mk = append(append([][]string{}, model[dep.Revision].masked...), mk...)
 			}
 			m.masked = mk
@@ -494,11 +516,11 @@ func runChain(res *core.Result, driver string, idx int, fam family, chain []step
 			}
 		}
 		diffs = kept
-		if len(diffs) > 0 && st.Mode == "reuse" && diffs[0].Kind == "missing" && hasPrefix(model[dep.Revision].masked, diffs[0].Path) {
+		if len(diffs) > 0 && effMode(st.Mode) == "reuse" && diffs[0].Kind == "missing" && hasPrefix(model[dep.Revision].masked, diffs[0].Path) {
 			res.Add("effective-values", maskedClass, "%s | stored config %s | defaults in force %s | probe %s | %s", diffs[0], rec.Config, ref.J(ref.Canon(m.defaults)), ref.J(pv), input())
 		} else if len(diffs) > 0 {
 			which := "new chart's defaults"
-			if st.Mode == "reuse" {
+			if effMode(st.Mode) == "reuse" {
 				which = "defaults in force at the deployed revision"
 			}
 			if st.Kind == "rollback" {
